@@ -462,6 +462,22 @@ func (ev *SpecEval) callSpec(e *SExpr) SVal {
 			ev.fail("unknown type %s", name)
 		}
 		return SVal{V: Eq(iv.Tag, IntLit(typeTag(t))), T: boolT}
+	case "plainStringFields": // plainStringFields("pkg.Type"): every field of the struct type is of the basic type string (not template.HTML, template.URL, ...)
+		t := ev.vc.prog.namedType(e.Args[0].Name)
+		if t == nil {
+			ev.fail("unknown type %s", e.Args[0].Name)
+		}
+		stt, ok := t.Underlying().(*types.Struct)
+		if !ok {
+			ev.fail("%s is not a struct", e.Args[0].Name)
+		}
+		all := true
+		for i := 0; i < stt.NumFields(); i++ {
+			if b, ok := stt.Field(i).Type().(*types.Basic); !ok || b.Kind() != types.String {
+				all = false
+			}
+		}
+		return SVal{V: BoolLit(all), T: boolT}
 	case "typetag": // typetag("pkg.Type" | "*pkg.Type"): the dynamic-type tag of a type
 		name := e.Args[0].Name
 		var t types.Type
